@@ -28,11 +28,29 @@ def _run(nt):
     args = arguments.UserArguments(sparsity_weight=0.1, iteration_limit=L, label_switching_cost=1.0,
                                    min_cluster_size=1, min_meaningful_covariance=0, num_clusters=K,
                                    num_processors=1, window_size=1, biased_covariance=False)
-    sc = Scripted({}, K, 1, initial=nt.get('initial'), relabel=script)
-    sc.scripted.add('point_ll')
     from fast_ticc import likelihood
     old = likelihood.point_log_likelihood
     likelihood.point_log_likelihood = lambda *a, **k: 0.0
+    if nt.get('after_failed_run'):
+        # call history of the witness: an earlier run in this process dies in the statistics phase of its
+        # second round; its first round produced the labelling this run will produce first
+        class Died(Exception):
+            pass
+
+        def fault(rnd, phase):
+            if rnd == 1 and phase == 'statistics':
+                raise Died()
+        sc0 = Scripted({}, K, 1, initial=nt.get('initial'), relabel=[script[0], script[0]], fault=fault)
+        args0 = arguments.UserArguments(sparsity_weight=0.1, iteration_limit=3, label_switching_cost=1.0,
+                                        min_cluster_size=1, min_meaningful_covariance=0, num_clusters=K,
+                                        num_processors=1, window_size=1, biased_covariance=False)
+        try:
+            with sc0:
+                main_loop.fit_stacked_data(args0, np.zeros((P, 1)))
+        except Died:
+            pass
+    sc = Scripted({}, K, 1, initial=nt.get('initial'), relabel=script)
+    sc.scripted.add('point_ll')
     try:
         with sc:
             res = main_loop.fit_stacked_data(args, np.zeros((P, 1)))
